@@ -129,6 +129,11 @@ func (w *World) craft(n *Node, s *Step, sealer *wallet.Wallet) (*accountant.Vert
 		copy(l[:], w.rng.Bytes(32))
 		r = l
 	}
+	if s.Kind == "forged-weight" {
+		// a sealing node is free to write any weight into the vertex it signs
+		wt = 1<<62 + uint64(w.rng.Intn(1000))
+		w.probe("forged-weight-vertex-offered")
+	}
 	v, err := accountant.NewVertex(trx, l, r, wt, sealer)
 	if err != nil {
 		return nil, err
